@@ -372,6 +372,7 @@ def run_auto_folders(case_id: int):
         old_dt, old_rnd = backup_utils.datetime, backup_utils.random
         backup_utils.datetime, backup_utils.random = _DTmod, _Rnd()
         res['stats'][f'auto.per_second.{per_second}'] = 1
+        history = []  # per attempt: (name given or None if it failed, folder listing, target of last-backup)
         for bi in range(n_backups):
             ticks['n'] = bi
             for _ in range(rng.randint(0, 3)):
@@ -382,10 +383,25 @@ def run_auto_folders(case_id: int):
                 if rng.random() < 0.7:
                     other.clean_storage()
             at_start = dict(table)
-            manager.backup_auto_folders(lambda path, prev: backup_utils.backup_container(manager, c, path, prev))
+            failing = rng.random() < 0.2
+
+            def one_backup(path, prev, failing=failing):
+                backup_utils.backup_container(manager, c, path, prev)
+                if failing:
+                    raise backup_utils.BackupError('injected: the backup fails after copying')
+
+            try:
+                manager.backup_auto_folders(one_backup)
+            except backup_utils.BackupError:
+                if not failing:
+                    raise
             res['stats']['backups'] += 1
             names = sorted(x for x in os.listdir(dest) if x.startswith('backup_'))
             link = os.path.join(dest, 'last-backup')
+            history.append((None if failing else (os.readlink(link) if os.path.islink(link) else '?'), names,
+                            os.readlink(link) if os.path.islink(link) else None))
+            if failing:
+                continue
             if len(names) > keep + 1:
                 fail('auto-too-many', f'keep={keep}: {len(names)} backups are kept after backup #{bi}')
             if not os.path.islink(link):
@@ -416,6 +432,18 @@ def run_auto_folders(case_id: int):
                 break
         other.close()
         c.close()
+        # the folder bookkeeping against the Lean model (names become their ranks in the sort order)
+        if history and not res['failures']:
+            allnames = sorted({h[0] for h in history if h[0]} | {x for h in history for x in h[1]})
+            rank = {nm: i + 1 for i, nm in enumerate(allnames)}
+            atts = ','.join(str(rank[h[0]]) if h[0] else 'x' for h in history)
+            real = ';'.join(f"{store.show_nats([rank[x] for x in h[1]])}@{rank[h[2]] if h[2] in rank else '-'}" for h in history)
+            with common.Driver() as drv:
+                model = drv.ask(f'bkf {keep} {atts}')
+            res['stats']['folder_histories_compared'] = 1
+            if model != real:
+                res['breaks'].append({'where': f'backup folders after {len(history)} attempts with keep={keep}', 'model': model, 'real': real,
+                                      'theorem_or_correspondence': 'Dos.BackupFolders.run vs backup_auto_folders', 'case': {'case_id': case_id}})
     except Exception as exc:  # pylint: disable=broad-except
         import traceback  # pylint: disable=import-outside-toplevel
 
